@@ -229,6 +229,8 @@ def kill_arm(run, lc):
     for bb, info in lc.switch_info.items():
         if info["cls"] and info["cls"][:2] == ("recv", "ctrl") and len(info["cls"]) == 3 and "Some" in info["arms"]:
             arm = info["arms"]["Some"]
+    if arm is None and lc.ctrl_split_by_predicate() and len(lc.ctrl_branch_targets()) == 1:
+        arm = lc.ctrl_branch_targets()[0]      # no match: the whole control-recv branch handles both cases, split by `is_some()`
     if not run.require(arm is not None, "O6.4", "kill-arm", "cannot find the Some(_) arm of the control-signal match", "found"):
         return
     reach = lc.cfg.reachable_from(arm)
